@@ -66,3 +66,38 @@ func replayDecoder(w *World, verif, prop string, fr *FuncResult, o *Obligation, 
 	txt += fmt.Sprintf("\nre-run: cd /repo && GOVC_REPLAY_LINE=%s go test -overlay <overlay mapping ovsdb/zz_govc_replay_test.go to /verif/harness/decoders_replay_test.go.txt> -vet=off -run TestGovcReplayDecoders -v ./ovsdb", line)
 	return ReplayResult{Confirmed: confirmed, Text: txt}, true
 }
+
+func init() { replayGens = append(replayGens, replayTransact) }
+
+// replayTransact: panic obligations on the transaction path are replayed by
+// submitting a corpus of syntactically valid but ill-formed operations to the
+// real in-memory database (harness/inmemory_transact_crash_test.go.txt).
+func replayTransact(w *World, verif, prop string, fr *FuncResult, o *Obligation, model string) (ReplayResult, bool) {
+	base := o.Kind
+	if i := strings.LastIndex(base, ">"); i >= 0 {
+		base = base[i+1:]
+	}
+	if !panicKinds[base] && base != "pre" && base != "at-call" {
+		return ReplayResult{}, false
+	}
+	if !(strings.HasPrefix(o.Func, "transaction.") || strings.HasPrefix(o.Func, "updates.mutate") || strings.HasPrefix(o.Func, "updates.(*ModelUpdates).add") ||
+		strings.HasPrefix(o.Func, "ovsdb.OvsToNative") || strings.HasPrefix(o.Func, "ovsdb.ValidateMutation") || strings.HasPrefix(o.Func, "ovsdb.validateMutation")) {
+		return ReplayResult{}, false
+	}
+	src := filepath.Join(verif, "harness", "inmemory_transact_crash_test.go.txt")
+	out, _ := overlayTest(w.Repo, "database/inmemory", src, "TestGovcTransactCrash", nil, filepath.Join(verif, "work", prop, "ovt_"+shortFile(o.Name)))
+	var keep []string
+	confirmed := false
+	for _, ln := range strings.Split(out, "\n") {
+		if strings.Contains(ln, "GOVC-REPLAY-CONFIRMED") {
+			confirmed = true
+			keep = append(keep, strings.TrimSpace(ln))
+		}
+	}
+	txt := strings.Join(keep, "\n")
+	if !confirmed {
+		txt = "corpus of ill-formed transact operations did not crash the real code\n" + trunc(out, 600)
+	}
+	txt += "\nre-run: go test -overlay <database/inmemory/zz_govc_replay_test.go -> /verif/harness/inmemory_transact_crash_test.go.txt> -vet=off -run TestGovcTransactCrash -v ./database/inmemory"
+	return ReplayResult{Confirmed: confirmed, Text: txt}, true
+}
